@@ -212,7 +212,12 @@ func setLimits() {
 func runWorker(specs []HarnessSpec, name string, shard, nshards int, skipFile string, deadline int64) {
 	setLimits()
 	out := workerOut{}
-	enc := json.NewEncoder(os.Stdout)
+	// the code under test may print to stdout: keep the result channel separate
+	resultFile := os.Stdout
+	if devnull, err := os.OpenFile(os.DevNull, os.O_WRONLY, 0); err == nil {
+		os.Stdout = devnull
+	}
+	enc := json.NewEncoder(resultFile)
 	for _, s := range specs {
 		if s.Name != name {
 			continue
